@@ -157,7 +157,9 @@ def gen_filtered(r: random.Random, scope: list[str], allow_tern: bool = True, ts
         if lf == "map":
             body: tuple = ("path", param, [("key", r.choice(KEYS))] if r.random() < 0.6 else [])
         else:
-            body = r.choice([("cmp", r.choice(["==", "!=", ">", "<"]), ("path", param, []), r.choice([("lit", 1), ("lit", 2), ("lit", "a"), ("path", "n", [])])),
+            # the body may read a free variable: a global, or a render / with / macro argument
+            body = r.choice([("cmp", r.choice(["==", "!=", ">", "<"]), ("path", param, []),
+                              r.choice([("lit", 1), ("lit", 2), ("lit", "a"), ("path", "n", []), ("path", "a", []), ("path", "w", []), ("path", "v", [])])),
                              ("path", param, []), ("path", param, [("key", r.choice(KEYS))]),
                              ("and", ("path", param, []), ("cmp", "!=", ("path", param, []), ("lit", 2)))])
         iparam = None
@@ -266,6 +268,12 @@ class Gen:
         for _ in range(n):
             nd = self.node(scope, depth, in_loop)
             out.append(nd)
+            if self.partials and r.random() < 0.05:
+                # the same partial twice with different arguments: each call evaluates its arrow
+                # functions over its own arguments
+                for _ in range(2):
+                    args = [(k, r.choice([("lit", 1), ("lit", 2), ("lit", 3), ("lit", "x"), ("path", "n", [])])) for k in ("a", "w", "v") if r.random() < 0.8]
+                    out.append(("render", "pl", None, args) if r.random() < 0.7 else ("include", ("lit", "pl"), None, args))
             if r.random() < 0.16:
                 # a comment or raw tag between markup and text: the markers on its right-hand
                 # end decide how the text after it is trimmed
@@ -423,7 +431,7 @@ class Gen:
         if k < 0.9 and in_loop:
             return r.choice([("break",), ("continue",)])
         if k < 0.955 and self.partials:
-            name = r.choice(PARTIALS + ["missing"] * (1 if r.random() < 0.1 else 0))
+            name = r.choice(PARTIALS + ["pl"] + ["missing"] * (1 if r.random() < 0.1 else 0))
             args = [(r.choice(["a", "w", "v"]), gen_primitive(r, scope)) for _ in range(r.choice([0, 0, 1, 2]))]
             if r.random() < 0.5:
                 var = None
@@ -458,6 +466,15 @@ def gen_program(r: random.Random, *, depth: int = 3, partials: bool = True) -> d
             if r.random() < 0.25:
                 ex = r.choice([("break",), ("continue",)])
                 loader[p].append(ex if r.random() < 0.5 else ("if", gen_bool(r, list(VARS), 1), [ex], [], None))
+        # a partial whose arrow functions read free variables that callers pass as arguments:
+        # they are evaluated in the partial's own scope, on every call
+        loader["pl"] = [
+            ("output", ("filter", ("lfilter", ("range", ("lit", 1), ("lit", 3)), "where", "q", ("cmp", "!=", ("path", "q", []), ("path", "a", [])), None), "join", [("lit", "")])),
+            ("content", "/"),
+            ("output", ("filter", ("lfilter", ("range", ("lit", 1), ("lit", 2)), "map", "q", ("path", "w", []), None), "join", [("lit", ".")])),
+            ("content", "/"),
+            ("output", ("lfilter", ("range", ("lit", 1), ("lit", 3)), "find", "q", ("cmp", "==", ("path", "q", []), ("path", "v", [])), r.choice([None, "j"]))),
+        ]
     return {"main": main, "loader": loader}
 
 
